@@ -150,6 +150,20 @@ func drain(rd io.Reader, want []byte, bufSize int) readResult {
 	}
 }
 
+// chunkAt returns the size of the i-th write / read of a body: the generated sizes (cycled) for the first 64 pieces,
+// 32 KiB pieces afterwards. Every piece is a stream write of its own (one packet at least): millions of 2-byte
+// writes are a throughput pathology (minutes of virtual time), not an integrity question.
+func chunkAt(chunks []int, i int) int {
+	if i >= 64 {
+		return 32 << 10
+	}
+	n := chunks[i%len(chunks)]
+	if n == 0 && i > 2*len(chunks) {
+		return 1500
+	}
+	return n
+}
+
 // ---- environment: real server + real client over the simulated network ----
 
 type envOpts struct {
